@@ -44,6 +44,38 @@ fn conv<T: TryInto<Timestamp, Error = TimestampError>>(t: T) -> Result<Result<u3
 
 const OFFSETS: [i32; 15] = [0, 3600, -3600, 19800, 20700, -43200, 50400, 45900, -34200, 32, -32, 1172, -1172, 86399, -86399];
 
+fn far_instants() -> &'static Vec<i64> {
+    static V: std::sync::OnceLock<Vec<i64>> = std::sync::OnceLock::new();
+    V.get_or_init(|| {
+        let mut v: Vec<i64> = vec![];
+        for k in 31..=62u32 {
+            for d in [-1i64, 0, 1] {
+                v.push((1i64 << k) + d);
+                v.push(-((1i64 << k) + d));
+            }
+        }
+        // 2^64 of a smaller unit, expressed in seconds (rounded both ways), and a few multiples
+        for unit in [1_000u128, 1_000_000, 1_000_000_000] {
+            let wrap = (1u128 << 64) / unit;
+            for m in 1..=40u128 {
+                for d in [0i128, 1, 2, 60, 4_294_967_295] {
+                    let s = (wrap * m) as i128 + d;
+                    if s < i64::MAX as i128 {
+                        v.push(s as i64);
+                    }
+                }
+            }
+        }
+        for m in 1..=64i64 {
+            v.push(m << 32);
+            v.push((m << 32) + 1);
+        }
+        v.sort();
+        v.dedup();
+        v
+    })
+}
+
 impl Property for C20 {
     type Case = C20Case;
     const ID: &'static str = "C20";
@@ -51,7 +83,7 @@ impl Property for C20 {
         C20
     }
     fn rule(&self) -> String {
-        "every second in windows of +-5000 (quick) / +-100000 (thorough) around 0, 2^31 and 2^32 with nanoseconds {0, 1, 5e8, 999999999}, each through SystemTime, chrono DateTime<Utc> and DateTime<FixedOffset> (15 offsets incl. :30/:45 zones, sub-minute offsets such as +00:19:32 and the extremes +-23:59:59); extreme representable values; seeded random instants over +-2^40 s; builder source files with mtimes before 1970 and after 2106. Non-trivial = instant within 5000 s of a boundary or outside 0..2^32; distinct by (secs, nanos, offset).".into()
+        "every second in windows of +-5000 (quick) / +-100000 (thorough) around 0, 2^31 and 2^32 with nanoseconds {0, 1, 5e8, 999999999}, each through SystemTime, chrono DateTime<Utc> and DateTime<FixedOffset> (15 offsets incl. :30/:45 zones, sub-minute offsets such as +00:19:32 and the extremes +-23:59:59); extreme representable values; every power of two (+-1) up to 2^62 s on both sides of the epoch and the multiples of 2^64 ms/us/ns and of 2^32 s; seeded random instants over +-2^40 s; builder source files with mtimes before 1970 and after 2106. Non-trivial = instant within 5000 s of a boundary or outside 0..2^32; distinct by (secs, nanos, offset).".into()
     }
     fn assumptions(&self) -> Vec<String> {
         vec!["expected value = floor(instant in seconds) computed in i128 from the construction parameters".into()]
@@ -76,6 +108,15 @@ impl Property for C20 {
                 }),
             },
             Phase::Enumerate { name: "extremes", total: 10, exhaustive: true, gen: Arc::new(|i| Some(C20Case::Extreme(i as u8))) },
+            // instants far from the 32-bit range: every power of two (+-1) up to 2^62 on both sides of
+            // the epoch, and the multiples of 2^64 milliseconds / microseconds / nanoseconds and of
+            // 2^32 seconds (where a conversion through a narrower unit would wrap back into range)
+            Phase::Enumerate {
+                name: "far-instants",
+                total: far_instants().len() as u64 * 3,
+                exhaustive: true,
+                gen: Arc::new(|i| far_instants().get((i / 3) as usize).map(|s| C20Case::Instant { secs: *s, nanos: [0u32, 1, 999_999_999][(i % 3) as usize], tz_offset: 0 })),
+            },
             Phase::Enumerate {
                 name: "file-mtimes",
                 total: 8,
